@@ -7,8 +7,10 @@ package bip32path
 //
 // Component level: the digits of a path component are read in base 10 and must be below 2^31; the printed
 // form uses only the characters of the grammar.
-// The framing of a path string (strings.Split, the regular expression, fmt's %d) is outside the
-// supported subset and is not under contract.
+// Framing: ParsePath accepts exactly "", "m" and the strings whose '/'-separated components (after an
+// optional "m/") are all DIGITS+[H']?, with the decimal reading below 2^31; the value of a component is its
+// decimal reading plus 2^31 when marked. strings.Split and the regular expression are library models
+// (trusted, listed in the evidence); the round trip through fmt's %d is not under contract.
 
 //@ props C10
 
@@ -17,6 +19,34 @@ package bip32path
 //@   ensures isnil(err) == (strconv.decok(s) && strconv.decval(s) < 2147483648)
 //@   ensures implies(isnil(err), mathint(r) == strconv.decval(s))
 //@   ensures implies(!isnil(err), r == 0)
+
+//@ spec mark(c string) int = ite(len(c) >= 1 && (c[len(c)-1] == 'H' || c[len(c)-1] == '\''), 1, 0)
+//@ spec compok(c string) bool = len(c) - mark(c) >= 1 && forall(k, 0, len(c) - mark(c), '0' <= c[k] && c[k] <= '9') && strconv.decval(c[0:len(c)-mark(c)]) < 2147483648
+//@ spec compval(c string) mathint = strconv.decval(c[0:len(c)-mark(c)]) + 2147483648*mark(c)
+//@ spec trivial(s string) bool = len(s) == 0 || (len(s) == 1 && s[0] == 'm')
+//@ spec mpre(s string) int = ite(len(s) >= 2 && s[0] == 'm' && s[1] == '/', 2, 0)
+
+// compok and compval are kept opaque in the proof of ParsePath (the invariant speaks about all earlier components);
+// their definitions are revealed for the component at hand through this lemma.
+//@ lemma comp_def(c string)
+//@   ensures compok(c) == (len(c) - mark(c) >= 1 && forall(k, 0, len(c) - mark(c), '0' <= c[k] && c[k] <= '9') && strconv.decval(c[0:len(c)-mark(c)]) < 2147483648)
+//@   ensures compval(c) == strconv.decval(c[0:len(c)-mark(c)]) + 2147483648*mark(c)
+
+// parts: the segments strings.Split returned; whole: the string that was split, which must be the input
+// without its optional "m/".
+//@ func ParsePath(s string) (r Path, err error)
+//@   opaque compok compval
+//@   let parts = ret(strings.Split, 1)
+//@   let whole = arg(strings.Split, 1, 0)
+//@   use comp_def(key)
+//@   loop 1 use comp_def(key)
+//@   panics  never
+//@   loop 1 invariant 0 <= i && i <= len(parts) && len(path) == i && forall(k, 0, i, compok(parts[k]) && mathint(path[k]) == compval(parts[k]))
+//@   ensures implies(trivial(old(s)), isnil(err) && len(r) == 0)
+//@   ensures implies(!trivial(old(s)), len(whole) == len(old(s)) - mpre(old(s)) && forall(k, 0, len(whole), whole[k] == old(s)[k + mpre(old(s))]))
+//@   ensures implies(!trivial(old(s)), isnil(err) == forall(k, 0, len(parts), compok(parts[k])))
+//@   ensures implies(!trivial(old(s)) && isnil(err), len(r) == len(parts) && forall(k, 0, len(parts), mathint(r[k]) == compval(parts[k])))
+//@   ensures implies(!isnil(err), len(r) == 0)
 
 // Path.String, partially: the output starts with 'm' and consists only of the characters of the path
 // grammar (m, /, ', decimal digits); an empty path prints as "m". The exact digits are fmt's business.
